@@ -170,6 +170,7 @@ func (x *Exec) beforeHints(fr *Frame, i *ssa.Call) {
 		for n, cl := range fr.contract.Before[k] {
 			env := x.funcEnv(fr, fr.curSt)
 			env.loop = fr.innermostLoop(fr.curBlock)
+			env.atPoint = true
 			label := cl.Label
 			if label == "" {
 				label = fmt.Sprintf("%s:%d", k, n+1)
